@@ -30,7 +30,10 @@ sim::Json generate(const std::string& tier, uint64_t seed, uint64_t index) {
   go.want_names = true; go.max_depth = 3;
   gen::Model m = gen::generate(rng, go);
   for (auto& v : m.vars) if (v.lb > v.ub) v.ub = v.lb;
+  const bool long_names = rng.chance(0.12);        // names of hundreds of characters that differ in the last few only (all distinct)
+  long names_shape = long_names ? apply_long_names(rng, m, false) : 0;
   sim::Json sc = model_scenario(m, true, rng.chance(0.3));
+  if (long_names) sc.set("names_shape", names_shape);
   static const int modes[] = {NAMES_NONE, NAMES_FULL, NAMES_FULL, NAMES_FULL, NAMES_SHORT, NAMES_CRLF, NAMES_COL_ONLY};
   int nm = modes[rng.below(7)];
   add_names_files(sc, m, nm);
